@@ -635,7 +635,11 @@ func (s *vfSM) applyPend(p vfPend, evs []vfCB, est map[uint64]int64, vs *[]*vfVi
 		}
 		if est != nil {
 			dst, sig, msg := vfJudge(d)
-			if sig != "" {
+			if sig == "C03/admitted-without-room" && s.c.RemainingCost() >= 0 {
+				// the judge knows the victims from OnEvict; the cache's own accounting says room was made, so victims were
+				// removed without being reported - that is about callbacks (C04 notices at Close), not about capacity
+				s.add(vs, vfV("MODEL", "room-was-made-without-reported-evictions", "%s; RemainingCost() now %d", msg, s.c.RemainingCost()))
+			} else if sig != "" {
 				s.add(vs, &vfViol{Owner: sig[:3], Sig: sig, Msg: msg})
 			} else if dst.kind == "already-resident" && s.preMap != nil {
 				// "or its key is already resident": the accounting named the key. That is right while the key is in the
